@@ -173,7 +173,7 @@ def life_before_contraction(ctx, rng, ctg, np):
                 # too many index assignments to enumerate: exact int64 numpy.einsum on the (projected) operands
                 sel = [a[tuple(slice(fixed[ix], fixed[ix] + 1) if ix in fixed else slice(None) for ix in t)]
                        for a, t in zip(arrays, inputs)]
-                ref = np.einsum(ctg.utils.inputs_output_to_eq(inputs, output), *sel, optimize="greedy").astype(object)
+                ref = np.asarray(np.einsum(ctg.utils.inputs_output_to_eq(inputs, output), *sel, optimize="greedy")).astype(object)
                 ctx.count("past:ref_numpy")
             scores = {}
             for order in (None, lambda nd: scores.setdefault(nd, rng.random())):
